@@ -362,5 +362,6 @@ func genC14(g *Gen) {
 		}
 	}
 
-	genC14Widen(g) // harness/c14w.go: mask tables, Getw on any bitmap, split + Join
+	genC14Widen(g) // harness/c14w.go: mask tables, Getw on any bitmap, split + Join, ToArray(Slice)
+	genC14Fmt(g)   // harness/c14f.go: bitmap.Fmt
 }
